@@ -149,7 +149,20 @@ def rule_guarded_by(ck, N):
                 st = q.enclosing_stmt(pm, n)
                 shown = n if isinstance(st, (ast.While, ast.If, ast.With, ast.For, ast.Try)) else st
                 kind = "write" if isinstance(n.ctx, (ast.Store, ast.Del)) else "read"
-                ck.ob("C40.guarded-by", fi, shown, _under_cond(pm, n, base, N["cond"], fi.node),
+                ok_g = _under_cond(pm, n, base, N["cond"], fi.node)
+                if not ok_g and base == "self" and fi.cls is not None and fi.name.startswith("_") and not fi.name.startswith("__"):
+                    # lock held by the callers: every call site of this private method sits under `with <obj>._select_cond`
+                    sites_ = []
+                    for g in mod.funcs.values():
+                        gpm = None
+                        for c in q.walk_body(g.node):
+                            if isinstance(c, ast.Attribute) and c.attr == fi.name:
+                                gpm = gpm or q.parent_map(g.node)
+                                par = gpm.get(c)
+                                b2 = q.dotted(c.value)
+                                sites_.append(isinstance(par, ast.Call) and par.func is c and b2 is not None and _under_cond(gpm, par, b2, N["cond"], g.node))
+                    ok_g = bool(sites_) and all(sites_)
+                ck.ob("C40.guarded-by", fi, shown, ok_g,
                       "%s.%s is accessed only under `with %s.%s`" % (base, n.attr, base, N["cond"]),
                       construct="%s .%s in %s" % (kind, n.attr, q.normalize_construct(shown, q.local_names(fi.node)).split("\n")[0][:120]))
     ck.floor("C40.guarded-by", cnt, 8, "accesses of %s/%s" % (SLOT, FLAG))
@@ -297,6 +310,68 @@ def _select_calls(run):
     return main, polls
 
 
+def _self_helper(ck, call):
+    """Method of the class called as self.<m>(...) (None otherwise)."""
+    if isinstance(call, ast.Call) and isinstance(call.func, ast.Attribute) and q.dotted(call.func.value) == "self" and ck.repo.has_func(F, "%s.%s" % (CLS, call.func.attr)):
+        return ck.repo.func(F, "%s.%s" % (CLS, call.func.attr))
+    return None
+
+
+def resolve_report(ck, N, run):
+    """Where the selector thread reports back: call_soon_threadsafe in the thread entry itself, or in a private helper the
+    entry calls (the helper must reach call_soon_threadsafe on every path; its parameters are mapped to the entry's arguments).
+    N['report'] = [(entry cfg node, call_soon_threadsafe call, function holding it, {helper param -> entry expression})]."""
+    out = []
+    for node, c in call_sites(run, ".call_soon_threadsafe"):
+        out.append((node, c, run, None))
+    for node, c in run.cfg.find(lambda x: _self_helper(ck, x) is not None):
+        h = _self_helper(ck, c)
+        inner = call_sites(h, ".call_soon_threadsafe")
+        if not inner:
+            continue
+        hp = [p for p in h.params() if p != "self"]
+        if len(hp) != len(c.args) or c.keywords or len(inner) != 1:
+            raise AnalysisError("report helper %s: unknown calling shape" % h.qualname)
+        ef_ = event_facts(h, {"cst": node_calls(".call_soon_threadsafe")}, cond_facts=False, exc_gen=True)
+        if ("@cst", True) not in ef_.get(h.cfg.exit.id, frozenset()):
+            raise AnalysisError("report helper %s does not reach call_soon_threadsafe on every path" % h.qualname)
+        ck.use(h)
+        out.append((node, inner[0][1], h, dict(zip(hp, c.args))))
+    N["report"] = out
+    N["report_ids"] = {n.id for n, _c, _h, _m in out}
+    return out
+
+
+def _slot_helper_summary(ck, h):
+    """For a helper that hands the slot content to its caller: obligations inside the helper (taken before cleared, every
+    value-returning path cleared the slot, None returned only with the shutdown flag observed).  Returns True when the helper
+    returns the slot content."""
+    slot = "self." + SLOT
+    aliases = {n.targets[0].id for n in q.walk_body(h.node) if isinstance(n, ast.Assign) and len(n.targets) == 1 and isinstance(n.targets[0], ast.Name) and q.dotted(n.value) == slot}
+    rets = h.cfg.stmt_nodes(lambda n: n.kind == "stmt" and isinstance(n.ast, ast.Return))
+    val_rets = [r for r in rets if r.ast.value is not None and not q.is_const(r.ast.value, None)]
+    if not aliases or not val_rets or not all(q.dotted(r.ast.value) in aliases for r in val_rets):
+        return False
+    is_take = lambda n: n.kind == "stmt" and isinstance(n.ast, ast.Assign) and q.dotted(n.ast.value) == slot
+    is_clear = lambda n: n.kind == "stmt" and isinstance(n.ast, (ast.Assign, ast.AnnAssign)) and slot in q.assigned_paths(n.ast) and isinstance(n.ast.value, ast.Constant) and n.ast.value.value is None
+    is_set = lambda n: n.kind == "stmt" and isinstance(n.ast, (ast.Assign, ast.AnnAssign, ast.AugAssign)) and slot in q.assigned_paths(n.ast) and not is_clear(n)
+    ef = event_facts(h, {"taken": is_take, "cleared": is_clear}, {"cleared": is_set}, cond_facts=False)
+    for r in val_rets:
+        ck.ob("C40.take-and-clear", h, r.ast, ("@taken", True) in ef[r.id] and ("@cleared", True) in ef[r.id],
+              "the helper returns the fd sets only after taking them from self.%s and setting the slot to None" % SLOT)
+    for node in h.cfg.stmt_nodes(is_clear):
+        ck.ob("C40.take-and-clear", h, node.ast, ("@taken", True) in ef[node.id], "the slot is emptied only after its content was taken")
+    facts = must_facts(h.cfg)
+    none_rets = [r for r in rets if r not in val_rets]
+    for r in none_rets:
+        ck.ob("C40.thread-exit", h, r.ast, holds(facts[r.id], "self." + FLAG, True), "the helper reports 'nothing to select' (None) only with self.%s observed true" % FLAG)
+    fall = [p for p, _k in h.cfg.pred[h.cfg.exit.id] if not (h.cfg.nodes[p].kind == "stmt" and isinstance(h.cfg.nodes[p].ast, ast.Return))]
+    if fall:
+        raise AnalysisError("%s can fall off its end: unknown idiom for the hand-off helper" % h.qualname)
+    ck.use(h)
+    return True
+
+
 def rule_take_and_clear(ck, N, run):
     """R5: each blocking select uses the lists taken from the slot, and the slot was emptied
     (under the lock) on every path of the current loop iteration."""
@@ -304,14 +379,25 @@ def rule_take_and_clear(ck, N, run):
     ck.floor("C40.take-and-clear", len(main), 1, "blocking select.select calls in the thread entry")
     slot = "self." + SLOT
     takes = {}
+    via_helper = {}
     for n in q.walk_body(run.node):
-        if isinstance(n, ast.Assign) and q.dotted(n.value) == slot and isinstance(n.targets[0], ast.Tuple) and all(isinstance(e, ast.Name) for e in n.targets[0].elts):
-            takes[id(n)] = [e.id for e in n.targets[0].elts]
+        if isinstance(n, ast.Assign) and isinstance(n.targets[0], ast.Tuple) and len(n.targets[0].elts) == 2 and all(isinstance(e, ast.Name) for e in n.targets[0].elts):
+            src = resolve_local(run, n.value)
+            if q.dotted(src) == slot:
+                takes[id(n)] = [e.id for e in n.targets[0].elts]
+            else:
+                h = _self_helper(ck, src)
+                if h is not None and not src.args and _slot_helper_summary(ck, h):
+                    takes[id(n)] = [e.id for e in n.targets[0].elts]
+                    via_helper[id(n)] = src
     if len(takes) != 1 or len(next(iter(takes.values()))) != 2:
-        raise AnalysisError("expected one `<r>, <w> = self.%s` unpacking in %s" % (SLOT, run.qualname))
+        raise AnalysisError("expected one `<r>, <w> = self.%s` unpacking (directly or through one hand-off helper) in %s" % (SLOT, run.qualname))
     rname, wname = next(iter(takes.values()))
+    helper_call = next(iter(via_helper.values())) if via_helper else None
+    N["slot_helper_call"] = helper_call
     is_take = lambda n: n.kind == "stmt" and id(n.ast) in takes
-    is_clear = lambda n: n.kind == "stmt" and isinstance(n.ast, (ast.Assign, ast.AnnAssign)) and slot in q.assigned_paths(n.ast) and isinstance(n.ast.value, ast.Constant) and n.ast.value.value is None
+    has_helper_call = lambda n: helper_call is not None and n.kind in ("stmt", "test") and any(x is helper_call for x in q.walk_local(n.ast))
+    is_clear = lambda n: (n.kind == "stmt" and isinstance(n.ast, (ast.Assign, ast.AnnAssign)) and slot in q.assigned_paths(n.ast) and isinstance(n.ast.value, ast.Constant) and n.ast.value.value is None) or has_helper_call(n)
     is_set = lambda n: n.kind == "stmt" and isinstance(n.ast, (ast.Assign, ast.AnnAssign, ast.AugAssign)) and slot in q.assigned_paths(n.ast) and not is_clear(n)
     rebinding = lambda n: n.kind in ("stmt", "for", "with") and not is_take(n) and ({rname, wname} & q.assigned_paths(n.ast) if isinstance(n.ast, ast.stmt) else False)
     ef = event_facts(run, {"taken": is_take, "cleared": is_clear}, {"taken": lambda n: bool(rebinding(n)), "cleared": is_set}, cond_facts=False)
@@ -323,7 +409,7 @@ def rule_take_and_clear(ck, N, run):
         ck.ob("C40.take-and-clear", run, c, ("@cleared", True) in ef[node.id],
               "self.%s = None on every path of this iteration before select (otherwise the next hand-off finds the slot occupied / the same sets are selected twice)" % SLOT,
               construct="cleared-before " + q.unparse(c))
-    for node in run.cfg.stmt_nodes(is_clear):
+    for node in run.cfg.stmt_nodes(lambda n: is_clear(n) and not has_helper_call(n)):
         ck.ob("C40.take-and-clear", run, node.ast, ("@taken", True) in ef[node.id], "the slot is emptied only after its content was taken")
 
 
@@ -332,8 +418,10 @@ def rule_report_back(ck, N, run):
     exception/return): the event loop hands off again only from the dispatch it is sent."""
     cfg = run.cfg
     slot = "self." + SLOT
-    is_clear = lambda n: n.kind == "stmt" and isinstance(n.ast, (ast.Assign, ast.AnnAssign)) and slot in q.assigned_paths(n.ast) and isinstance(n.ast.value, ast.Constant) and n.ast.value.value is None
-    cst = {n.id for n, _c in call_sites(run, ".call_soon_threadsafe")}
+    hc = N.get("slot_helper_call")
+    is_clear = lambda n: (n.kind == "stmt" and isinstance(n.ast, (ast.Assign, ast.AnnAssign)) and slot in q.assigned_paths(n.ast) and isinstance(n.ast.value, ast.Constant) and n.ast.value.value is None) or (
+        hc is not None and n.kind in ("stmt", "test") and any(x is hc for x in q.walk_local(n.ast)))
+    cst = N["report_ids"]
     main, _polls = _select_calls(run)
     pm = q.parent_map(run.node)
     whiles = [a for _n, c in main for a in q.ancestors(pm, c) if isinstance(a, ast.While)]
@@ -370,8 +458,20 @@ def rule_thread_exit(ck, N, run):
     ck.ob("C40.thread-exit", run, run.node, can_exit, "the selector thread has a normal exit (close() joins it)", construct="normal-exit-reachable")
     if can_exit:
         facts = must_facts(cfg)
-        ck.ob("C40.thread-exit", run, run.node, holds(facts[cfg.exit.id], "self." + FLAG, True),
-              "every normal exit of the selector thread is taken with self.%s observed true (never stops while still needed)" % FLAG, construct="exit-only-when-closing")
+        hc = N.get("slot_helper_call")
+        for p, _kind in cfg.pred[cfg.exit.id]:
+            pn = cfg.nodes[p]
+            f = facts[cfg.exit.id] if not (pn.kind == "stmt" and isinstance(pn.ast, ast.Return)) else facts[pn.id]
+            ok = holds(f, "self." + FLAG, True)
+            if not ok and hc is not None:
+                # the hand-off helper returns None only with the flag observed (checked inside it): `x = helper(); if x is None: return`
+                for t, pol in f:
+                    if pol and t.endswith(" is None"):
+                        nm = t[: -len(" is None")]
+                        if nm.isidentifier() and resolve_local(run, ast.Name(id=nm, ctx=ast.Load())) is hc:
+                            ok = True
+            ck.ob("C40.thread-exit", run, pn.ast if isinstance(pn.ast, ast.AST) else run.node, ok,
+                  "every normal exit of the selector thread is taken with self.%s observed true (never stops while still needed)" % FLAG, construct="exit-only-when-closing")
 
 
 def rule_confinement(ck, N, run):
@@ -394,8 +494,8 @@ def rule_confinement(ck, N, run):
                     seen.add(callee.qualname)
                     todo.append(callee)
     # the dispatch function: first positional argument of call_soon_threadsafe
-    cst = call_sites(run, ".call_soon_threadsafe")
-    ck.floor("C40.confinement", len(cst), 1, "call_soon_threadsafe sites in the thread entry")
+    cst = [(n_, c_) for n_, c_, _h, _m in N["report"]]
+    ck.floor("C40.confinement", len(cst), 1, "call_soon_threadsafe sites on the selector thread")
     for node, c in cst:
         d = q.dotted(c.args[0]) if c.args else None
         if not (d and d.startswith("self.") and repo.has_func(F, "%s.%s" % (CLS, d[5:]))):
@@ -453,6 +553,17 @@ def rule_start_callers(ck, N):
         raise AnalysisError("no method fills the hand-off slot %s" % SLOT)
     N["handoff"] = handoff
     allowed = {N["starter"].qualname, "%s.%s" % (CLS, N["dispatch"])}
+    base_allowed = set(allowed)
+    # one or two levels of private helpers that are themselves called only from allowed functions
+    for _round in range(2):
+        for m_ in ck.repo.direct_methods(F, CLS):
+            if m_.qualname in allowed or m_.name == handoff.name or not m_.name.startswith("_") or m_.name.startswith("__"):
+                continue
+            if not any(isinstance(x, ast.Attribute) and x.attr == handoff.name for x in q.walk_body(m_.node)):
+                continue
+            who = {g.qualname for g in mod.funcs.values() for x in q.walk_body(g.node) if isinstance(x, ast.Attribute) and x.attr == m_.name}
+            if who and who <= allowed:
+                allowed.add(m_.qualname)
     callers = set()
     for fi in mod.funcs.values():
         for n in q.walk_body(fi.node):
@@ -460,15 +571,33 @@ def rule_start_callers(ck, N):
                 callers.add(fi.qualname)
                 ck.ob("C40.single-handoff", fi, n, fi.qualname in allowed,
                       "%s is invoked only when no select is pending: from the thread starter and from the end of a dispatch (at most one select in progress)" % handoff.name)
-    missing = allowed - callers
-    ck.ob("C40.single-handoff", handoff, handoff.node, not missing, "both legitimate callers hand off (%s)" % ", ".join(sorted(allowed)), construct="callers-present missing=%s" % sorted(missing))
+    reach_ = {b for b in base_allowed if b in callers or any(h_ in callers and any(isinstance(x, ast.Attribute) and x.attr == h_.split(".")[-1] for x in q.walk_body(ck.repo.func(F, b).node)) for h_ in allowed - base_allowed)}
+    missing = base_allowed - reach_
+    ck.ob("C40.single-handoff", handoff, handoff.node, not missing, "both legitimate callers hand off (%s)" % ", ".join(sorted(base_allowed)), construct="callers-present missing=%s" % sorted(missing))
     # starter: thread started in the same function as the first hand-off
     st = N["starter"]
     ck.ob("C40.single-handoff", st, st.node, bool(q.find_calls(st.node, "self.%s.start" % N["thread"])), "the thread starter starts the thread it created", construct="thread-started")
     # dispatch: exactly one hand-off on every normal path
     disp = ck.func(F, "%s.%s" % (CLS, N["dispatch"]))
-    ids = {n.id for n, _c in call_sites(disp, "self." + handoff.name)}
-    seen = explore(disp.cfg, 0, lambda n, v: min(v + (1 if n.id in ids else 0), 2), lambda t: False, follow_exc=False)
+    def count_handoffs(fn_, depth=0):
+        """{possible numbers of hand-offs on normal paths of fn_} (calls of private helpers summarised one level)."""
+        contrib = {}
+        for n_, c_ in fn_.cfg.find(lambda x: isinstance(x, ast.Call) and isinstance(x.func, ast.Attribute) and q.dotted(x.func.value) == "self"):
+            if c_.func.attr == handoff.name:
+                contrib.setdefault(n_.id, []).append({1})
+            elif depth < 2 and ck.repo.has_func(F, "%s.%s" % (CLS, c_.func.attr)) and "%s.%s" % (CLS, c_.func.attr) in allowed - base_allowed:
+                contrib.setdefault(n_.id, []).append(count_handoffs(ck.repo.func(F, "%s.%s" % (CLS, c_.func.attr)), depth + 1))
+
+        def tr_(n, v):
+            outs = [v]
+            for poss in contrib.get(n.id, ()):
+                outs = [min(o + k_, 2) for o in outs for k_ in poss]
+            return outs if len(outs) > 1 else outs[0]
+
+        seen_ = explore(fn_.cfg, 0, tr_, lambda t: False, follow_exc=False)
+        return {v for _f, v in seen_.get(fn_.cfg.exit.id, ())}
+
+    seen = {disp.cfg.exit.id: {(frozenset(), v) for v in count_handoffs(disp)}}
     states = sorted({v for _f, v in seen.get(disp.cfg.exit.id, ())})
     for v in states:
         ck.ob("C40.restart-once", disp, disp.node, v == 1, "every normal completion of %s hands the fd sets back to the selector thread exactly once (count=%d)" % (disp.name, v), construct="restart count=%d" % v)
@@ -517,9 +646,14 @@ def rule_dispatch(ck, N, run):
                 pos1.add(e[1].id)
     pos0.discard("_")
     pos1.discard("_")
-    for node, c in call_sites(run, ".call_soon_threadsafe"):
-        a1 = q.dotted(c.args[1]) if len(c.args) > 1 else None
-        a2 = q.dotted(c.args[2]) if len(c.args) > 2 else None
+    for node, c, hfi, amap in N["report"]:
+        e1 = c.args[1] if len(c.args) > 1 else None
+        e2 = c.args[2] if len(c.args) > 2 else None
+        if amap is not None:
+            e1 = amap.get(q.dotted(e1)) if e1 is not None else None
+            e2 = amap.get(q.dotted(e2)) if e2 is not None else None
+        a1 = q.dotted(e1) if e1 is not None else None
+        a2 = q.dotted(e2) if e2 is not None else None
         ck.ob("C40.dispatch", run, c, a1 in pos0 and a2 in pos1 and a1 != a2, "the readable list (select result 0) and the writable list (result 1) are passed to %s in that order" % disp.name)
     # error readiness (third select result) is merged into the writable list before the hand-over
     mains = [n for n in run.cfg.stmt_nodes(lambda n: n.kind == "stmt" and isinstance(n.ast, ast.Assign) and q.is_call(n.ast.value, "select.select")
@@ -529,7 +663,7 @@ def rule_dispatch(ck, N, run):
         if not all(isinstance(x, ast.Name) for x in e):
             raise AnalysisError("select results are not unpacked into three names")
         W, X = e[1].id, e[2].id
-        cst_ids = {n.id for n, _c in call_sites(run, ".call_soon_threadsafe")}
+        cst_ids = N["report_ids"]
         bad = []
 
         def tr(n, v, W=W, X=X, mn=mn):
@@ -634,7 +768,17 @@ def rule_waker(ck, N):
             if d and d.startswith("self."):
                 closed.add(d[5:])
     N["closed"] = closed
-    # every change of the fd maps wakes the selector
+    # every change of the fd maps wakes the selector (directly or through a private helper that always wakes)
+    direct_wake = node_calls("self." + wake.name, w + ".send")
+    wakers = set()
+    for m_ in ck.repo.direct_methods(F, CLS):
+        if m_.name == wake.name:
+            continue
+        ef_ = event_facts(m_, {"w": direct_wake}, cond_facts=False, exc_gen=True)
+        if ("@w", True) in ef_.get(m_.cfg.exit.id, frozenset()) and m_.cfg.pred[m_.cfg.exit.id]:
+            wakers.add(m_.name)
+    is_wake_node = lambda n: direct_wake(n) or (n.kind in ("stmt", "test") and n.ast is not None and any(
+        isinstance(c, ast.Call) and isinstance(c.func, ast.Attribute) and q.dotted(c.func.value) == "self" and c.func.attr in wakers for c in q.walk_local(n.ast)))
     maps = {"self." + N["readers"], "self." + N["writers"]}
     cnt = 0
     for fi in ck.repo.direct_methods(F, CLS):
@@ -644,52 +788,15 @@ def rule_waker(ck, N):
             if isinstance(n.ast, (ast.Assign, ast.AugAssign, ast.Delete)) and any(p.endswith("[]") and p[:-2] in maps for p in q.assigned_paths(n.ast)):
                 return True
             return any(isinstance(c.func, ast.Attribute) and q.dotted(c.func.value) in maps and c.func.attr in ("pop", "popitem", "clear", "update", "setdefault", "__setitem__", "__delitem__") for c in q.calls(n.ast))
-        k = require_after(ck, "C40.wake-on-change", fi, is_mut, node_calls("self." + wake.name, w + ".send"),
+        k = require_after(ck, "C40.wake-on-change", fi, is_mut, is_wake_node,
                           "a change of the reader/writer maps wakes the selector thread on every normal path (else select keeps waiting on the old sets)")
         cnt += k
     ck.floor("C40.wake-on-change", cnt, 4, "map mutation sites (add/remove reader/writer)")
 
 
 def _order(ck, rule, fi, base, N, per_iteration=False, exit_need=None):
-    """Ordering typestate for a shutdown sequence on object ``base``."""
-    thr = "%s.%s" % (base, N["thread"])
-    # local aliases of the thread attribute (`t = self._thread`)
-    thr_names = {thr} | {nm for nm in q.local_names(fi.node) if unique_def(fi, nm) is not None and q.dotted(unique_def(fi, nm)) == thr}
-
-    def make_ev(b, thr_set):
-        cond = "%s.%s" % (b, N["cond"])
-        wsock, rsock = "%s.%s" % (b, N["waker_w"]), "%s.%s" % (b, N["waker_r"])
-        wake_name = "%s.%s" % (b, N["wake"].name)
-        return {
-            "flag": lambda n: n.kind == "stmt" and isinstance(n.ast, ast.Assign) and "%s.%s" % (b, FLAG) in q.assigned_paths(n.ast) and isinstance(n.ast.value, ast.Constant) and n.ast.value.value is True,
-            "notify": node_calls(cond + ".notify", cond + ".notify_all"),
-            "wake": node_calls(wake_name, wsock + ".send"),
-            "join": node_calls(*[t + ".join" for t in sorted(thr_set)]),
-            "sockclose": node_calls(wsock + ".close", rsock + ".close"),
-        }
-
-    ev0 = make_ev(base, thr_names)
-    # one-level summaries of private helpers of the class called on the same object: the events they perform on every normal path
-    summaries = {}
-
-    def helper_events(n):
-        if n.kind not in ("stmt", "test") or n.ast is None:
-            return set()
-        out = set()
-        for c in q.walk_local(n.ast):
-            if isinstance(c, ast.Call) and isinstance(c.func, ast.Attribute) and q.dotted(c.func.value) == base and c.func.attr != N["wake"].name and ck.repo.has_func(F, "%s.%s" % (CLS, c.func.attr)):
-                m = c.func.attr
-                if m not in summaries:
-                    h = ck.repo.func(F, "%s.%s" % (CLS, m))
-                    evh = make_ev("self", {"self." + N["thread"]})
-                    ef_ = event_facts(h, {k: p for k, p in evh.items() if k in ("flag", "notify", "wake")}, cond_facts=False, exc_gen=True)
-                    summaries[m] = {t[1:] for t, pol in ef_.get(h.cfg.exit.id, ()) if pol and t.startswith("@")}
-                out |= summaries[m]
-        return out
-
-    ev = {k: (lambda n, k=k, p=p: p(n) or k in helper_events(n)) if k in ("flag", "notify", "wake") else p for k, p in ev0.items()}
-    closed = ["%s.%s" % (base, c) for c in sorted(N["closed"])]
-    ev["closedflag"] = lambda n: n.kind == "stmt" and isinstance(n.ast, ast.Assign) and any(c in q.assigned_paths(n.ast) for c in closed) and not (isinstance(n.ast.value, ast.Constant) and n.ast.value.value is False)
+    """Ordering typestate for a shutdown sequence on object ``base``.  Calls of private helpers of the class on the same
+    object are followed (the helper is explored with the caller's state, obligations are recorded inside it), to depth 2."""
     need = {
         "join": ("flag", "notify", "wake"), "sockclose": ("join",),
         "closedflag": ("wake",),
@@ -701,30 +808,105 @@ def _order(ck, rule, fi, base, N, per_iteration=False, exit_need=None):
         ("sockclose", "join"): "the waker sockets are closed only after the selector thread stopped (or was never started)",
         ("closedflag", "wake"): "the closed flag (which turns the wake function into a no-op) is set only after the selector was woken",
     }
-    cfg = fi.cfg
 
-    def transfer(n, val):
-        if per_iteration and n.kind == "for":
-            return frozenset()
-        add = {k for k, p in ev.items() if p(n)}
-        return val | add if add else val
+    def make_ev(fn, b):
+        thr = "%s.%s" % (b, N["thread"])
+        thr_names = {thr} | {nm for nm in q.local_names(fn.node) if unique_def(fn, nm) is not None and q.dotted(unique_def(fn, nm)) == thr}
+        cond = "%s.%s" % (b, N["cond"])
+        wsock, rsock = "%s.%s" % (b, N["waker_w"]), "%s.%s" % (b, N["waker_r"])
+        wake_name = "%s.%s" % (b, N["wake"].name)
+        closed = ["%s.%s" % (b, c) for c in sorted(N["closed"])]
+        ev = {
+            "flag": lambda n: n.kind == "stmt" and isinstance(n.ast, ast.Assign) and "%s.%s" % (b, FLAG) in q.assigned_paths(n.ast) and isinstance(n.ast.value, ast.Constant) and n.ast.value.value is True,
+            "notify": node_calls(cond + ".notify", cond + ".notify_all"),
+            "wake": node_calls(wake_name, wsock + ".send"),
+            "join": node_calls(*[t + ".join" for t in sorted(thr_names)]),
+            "sockclose": node_calls(wsock + ".close", rsock + ".close"),
+            "closedflag": lambda n: n.kind == "stmt" and isinstance(n.ast, ast.Assign) and any(c in q.assigned_paths(n.ast) for c in closed) and not (isinstance(n.ast.value, ast.Constant) and n.ast.value.value is False),
+        }
+        return ev, thr_names, closed
 
-    def edge(n, kind, val):
-        if n.kind == "test" and kind in ("true", "false"):
-            t, pol = canon_fact(n.ast, kind == "true")
-            if any(t == x + " is None" for x in thr_names) and pol:
-                return val | {"join"}
-        return val
-
-    seen = explore(cfg, frozenset(), transfer, lambda t: any(t == c for c in closed), edge_transfer=edge, exc_effect=True)
+    obl = {}
     counts = {}
-    for n in cfg.stmt_nodes():
-        for k, p in ev.items():
-            if p(n):
-                counts[k] = counts.get(k, 0) + 1
+    memo = {}
+    relevant = {}
+
+    def is_relevant(h):
+        """the helper (or a helper it calls) performs one of the shutdown steps"""
+        if h.qualname not in relevant:
+            relevant[h.qualname] = False
+            evh, _t, _c = make_ev(h, "self")
+            r = any(p(n) for n in h.cfg.stmt_nodes() for p in evh.values())
+            if not r:
+                for c in q.calls(h.node):
+                    hh = _self_helper(ck, c)
+                    if hh is not None and hh.name != N["wake"].name and hh.qualname != h.qualname and is_relevant(hh):
+                        r = True
+            relevant[h.qualname] = r
+        return relevant[h.qualname]
+
+    def walk(fn, b, init, depth, top=False):
+        key = (fn.qualname, b, init)
+        if key in memo:
+            return memo[key]
+        memo[key] = (set(), {})
+        ev, thr_names, closed = make_ev(fn, b)
+        cfg = fn.cfg
+
+        def helpers_at(n):
+            if n.kind not in ("stmt", "test") or n.ast is None or depth >= 2:
+                return []
+            out = []
+            for c in q.walk_local(n.ast):
+                if isinstance(c, ast.Call) and isinstance(c.func, ast.Attribute) and q.dotted(c.func.value) == b and c.func.attr != N["wake"].name and ck.repo.has_func(F, "%s.%s" % (CLS, c.func.attr)):
+                    h = ck.repo.func(F, "%s.%s" % (CLS, c.func.attr))
+                    if h.qualname != fn.qualname and is_relevant(h):
+                        out.append(h)
+            return out
+
+        def transfer(n, val):
+            if per_iteration and top and n.kind == "for":
+                return frozenset()
+            hs = helpers_at(n)
+            if hs:
+                outs = {val}
+                for h in hs:
+                    ck.use(h)
+                    nxt = set()
+                    for v in outs:
+                        nxt |= walk(h, "self", v, depth + 1)[0]
+                    outs = nxt or outs
+                return sorted(outs, key=sorted) if len(outs) > 1 else next(iter(outs))
+            add = {k for k, p in ev.items() if p(n)}
+            for k in add:
                 for req in need.get(k, ()):
-                    ok = all(req in val for _f, val in seen.get(n.id, ()))
-                    ck.ob(rule, fi, n.ast, ok, why[(k, req)], construct="%s-after-%s %s" % (k, req, q.normalize_construct(n.ast, q.local_names(fi.node)).split("\n")[0][:100]))
+                    kk = (fn.qualname, n.id, k, req)
+                    prev = obl.get(kk)
+                    obl[kk] = [(prev[0] if prev else True) and (req in val), fn, n]
+            return val | add if add else val
+
+        def edge(n, kind, val):
+            if n.kind == "test" and kind in ("true", "false"):
+                t, pol = canon_fact(n.ast, kind == "true")
+                if any(t == x + " is None" for x in thr_names) and pol:
+                    return val | {"join"}
+            return val
+
+        for n in cfg.stmt_nodes():
+            for k, p in ev.items():
+                if p(n):
+                    counts[k] = counts.get(k, 0) + 1 if (fn.qualname, n.id, k) not in counts else counts[k]
+                    counts[(fn.qualname, n.id, k)] = 1
+        seen = explore(cfg, init, transfer, lambda t: any(t == c for c in closed), edge_transfer=edge, exc_effect=True)
+        res = ({val for _f, val in seen.get(cfg.exit.id, ())}, seen)
+        memo[key] = res
+        return res
+
+    exits, seen = walk(fi, base, frozenset(), 0, top=True)
+    cfg = fi.cfg
+    _ev_top, _thr, closed = make_ev(fi, base)
+    for (fq, nid, k, req), (ok, fn_, n) in sorted(obl.items(), key=lambda kv: (kv[0][0], kv[0][1], kv[0][2], kv[0][3])):
+        ck.ob(rule, fn_, n.ast, ok, why[(k, req)], construct="%s-after-%s %s" % (k, req, q.normalize_construct(n.ast, q.local_names(fn_.node)).split("\n")[0][:100]))
     # completion: the sequence reaches join (or knows there is no thread)
     if per_iteration:
         for n in cfg.stmt_nodes(lambda n: n.kind == "for"):
@@ -738,7 +920,7 @@ def _order(ck, rule, fi, base, N, per_iteration=False, exit_need=None):
             ck.ob(rule, fi, fi.node, early or {"flag", "notify", "wake", "join"} <= val,
                   "close() returns only with the selector thread joined (or already closed / never started); events seen: %s" % ",".join(sorted(val)),
                   construct="exit " + ("already-closed" if early else ",".join(sorted(val))))
-    return counts
+    return {k: v for k, v in counts.items() if isinstance(k, str)}
 
 
 def rule_shutdown(ck, N):
@@ -787,6 +969,7 @@ def run(ck):
 
     N = resolve(ck)
     run_ = ck.func(F, "%s.%s" % (CLS, N["entry"]))
+    resolve_report(ck, N, run_)
     rule_guarded_by(ck, N)
     rule_wait_loop(ck, N, run_)
     rule_notify(ck, N)
